@@ -460,8 +460,31 @@ fn via_builder(c: &Checksum<'_>, model: &Model, typed: bool, spell_seed: u64, at
     {
         use std::borrow::Cow;
         let text = respell(model, spell_seed);
+        // "Built with a checksum qualifier" also means: written into the builder's public
+        // `parts.qualifiers` without going through `with_qualifier` (r13c12-1 canonicalised in
+        // with_qualifier and in the parser instead of in build()).
+        let route = (spell_seed >> 24) % 6;
         let built = guarded(move || {
-            GenericPurlBuilder::new(Cow::Borrowed("Generic"), "n").with_qualifier("checksum", text).and_then(|b| b.build())
+            let mut b = GenericPurlBuilder::new(Cow::Borrowed("Generic"), "n");
+            match route {
+                0 => {
+                    b.parts.qualifiers.insert("checksum", text.as_str())?;
+                },
+                1 => {
+                    b = b.with_qualifier("checksum", "x:00")?;
+                    b.parts.qualifiers["checksum"] = text.as_str().into();
+                },
+                2 => {
+                    if let Ok(e) = b.parts.qualifiers.entry("checksum") {
+                        *e.or_insert("") = text.as_str().into();
+                    }
+                },
+                3 => {
+                    b.parts.qualifiers = purl::qualifiers::Qualifiers::try_from_iter([("arch", "x"), ("checksum", text.as_str())])?;
+                },
+                _ => b = b.with_qualifier("checksum", text)?,
+            }
+            b.build()
         })
         .map_err(|p| violation!("C12.panic_in_build", "{at}: the Cow<str> builder panicked: {p}"))?
         .map_err(|e| violation!("C12.build_refused_valid_checksum", "{at}: the Cow<str> builder refused checksum entries {:?}: {e}", model))?;
